@@ -190,6 +190,25 @@ def run(rep: vlib.Reporter, tier: str, seed: int) -> None:
                             f"accepted plan did not return or raise within {BOUND_S}s in {mname} ({o['scans']} loop iterations)",
                             {"kind": "hang", "spec": specs[i], "mode": mname, "plan": outs[i][0]["plan"]})
                 found = True
+    # strict Stage-A fragment: the planner MODEL (Model/PlannerA.v; theorems Props/PlannerA.v) against the real planner
+    from harness import planner_a
+    prA = vlib.build_props("PlannerA")
+    rep.proof(prA)
+    pa_specs = [planner_a.gen_strict(rng) for _ in range(400 if big else 60)] + \
+               [planner_a.gen_cross(rng) for _ in range(60 if big else 10)] + \
+               [planner_a.spec_cross_cycle(), planner_a.spec_diamond_chain()]
+    dis = planner_a.check_plans(pa_specs, "C04", run_accepted=(60 if big else 12))
+    dist["planner_model"] = {"specs": len(pa_specs), "disagreements": len(dis),
+                             **{k: v for k, v in planner_a.LAST_INFO.items() if isinstance(v, (int, float, str))}}
+    for d_ in dis[:8]:
+        rep.finding(f"plannerA:{d_.get('stage')}:{json.dumps(d_.get('spec'), sort_keys=True)}",
+                    f"strict-fragment request: real planner and planner model disagree at {d_.get('stage')}: {str(d_.get('what'))[:300]}",
+                    {"kind": "plannerA", **{k: v for k, v in d_.items() if k in ("spec", "stage", "what")}})
+        found = True
+    if not prA.ok and not found:
+        rep.finding("proof-broken-PlannerA", "Props/PlannerA.v no longer checks",
+                    {"failed_files": prA.failed_files, "log_tail": prA.log[-2000:]}, found_input=False)
+    rep.count(len(pa_specs))
     rep.count(len(specs) * (3 + len(seeds)) + n_runs)
     rep.add("distribution", dist)
     rep.add("wf_check", {**info, "plans": len(wf_terms), "not_well_formed": len(bad)})
